@@ -324,8 +324,13 @@ const ZONED_FORMATS: &[&str] = &[
     "%Y%m%d%H%M%S%z",
     "%C%y-%m-%d %l:%M:%S %P %z",
     "%F%n%T%t%z",
+    // week-number based dates (week 0..53 of the year, Sunday resp. Monday based)
+    "%Y %U %w %T%.f %z",
+    "%Y %W %u %T%.f %z",
+    "%Y-%U-%a %H:%M:%S %:z",
+    "%Y/%W/%a %T %z",
 ];
-const CIVIL_FORMATS: &[&str] = &["%Y-%m-%d %H:%M:%S%.f", "%F %T.%f", "%A %B %d %Y %I.%M.%S%.f %p", "%Y %j %R:%S%.f", "%G %V %u %T%.f", "%m/%d/%Y %T%.f", "%d %b %Y %H%M%S%.f", "%Y%m%d%H%M%S"];
+const CIVIL_FORMATS: &[&str] = &["%Y-%m-%d %H:%M:%S%.f", "%F %T.%f", "%A %B %d %Y %I.%M.%S%.f %p", "%Y %j %R:%S%.f", "%G %V %u %T%.f", "%m/%d/%Y %T%.f", "%d %b %Y %H%M%S%.f", "%Y%m%d%H%M%S", "%Y %U %w %T%.f", "%Y %W %u %T%.f", "%Y-W%U-%a %T"];
 
 #[derive(Serialize, Deserialize, Debug, Clone)]
 struct RtCase {
@@ -371,7 +376,9 @@ fn test_roundtrip(c: &RtCase, cx: &mut Cx) -> CaseResult {
         }
         // contradictory text must be rejected
         if let Some(k) = c.perturb {
-            if zf.contains("%A") || zf.contains("%a") {
+            // only where the weekday is redundant (the date is given by day
+            // of month); with %U/%W the weekday is part of the date itself
+            if (zf.contains("%A") || zf.contains("%a")) && (zf.contains("%d") || zf.contains("%e")) {
                 let names: Vec<&str> = if zf.contains("%A") { WEEKDAYS.to_vec() } else { WEEKDAYS.iter().map(|w| &w[..3]).collect() };
                 let cur = names[f.wd_mon0 as usize];
                 let other = names[((f.wd_mon0 + 1 + (k % 6) as i64) % 7) as usize];
@@ -435,7 +442,9 @@ fn test_rfc2822(c: &RtCase, cx: &mut Cx) -> CaseResult {
         let mm: i32 = s[3..5].parse().map_err(|_| Failure::new("rfc2822-offset-shape", ctx.clone()))?;
         sign * (hh * 3600 + mm * 60)
     };
-    ensure!((po - f.off).abs() < 60 && po % 60 == 0, "rfc2822-offset", "{ctx}: printed offset {po}s for real offset {}s", f.off);
+    // documented: rounded to the nearest minute (a :30 tie may go either way;
+    // the top of the range stays at 25:59)
+    ensure!(po % 60 == 0 && ((po - f.off).abs() <= 30 || (f.off.abs() > 93570 && po.abs() == 93540)), "rfc2822-offset", "{ctx}: printed offset {po}s for real offset {}s is not the nearest minute", f.off);
     // parse back: civil fields to the second, offset to the minute
     let printed_inst = crate::props::c04::dt_to_civil(f.zdt.datetime()) / NS_PER_SEC * NS_PER_SEC - po as i128 * NS_PER_SEC;
     if !rz::in_ts_range(printed_inst) {
